@@ -413,3 +413,81 @@ Example C05_rerun_other_kinds_nonvacuous :
   tr1 = [EGetStatus 0; ERemove 0; EFailure 0 kind_dep; EGetStatus 2; ERemove 2; EFailure 2 kind_unmet; EClose] /\
   d1 0 = None /\ d1 2 = None.
 Proof. vm_compute. repeat split. Qed.
+
+(* ===================================================================================================== *)
+(* Containment through a CHAIN of tasks, whatever the history left for the tasks in between              *)
+(* (round G; Proofs/FailChainP.v).  The direct statements above (C05_failed_dependency_never_runs_...)    *)
+(* speak of a task and ONE effective dependency; for  top -> mid -> gen  with gen failing and mid         *)
+(* up-to-date by its own inputs (earlier runs left success records) they need that mid is then NOT        *)
+(* reported up-to-date: Runner.select_task looks at node.bad_deps before it asks get_status               *)
+(* (doit/runner.py:127-137).  [dchain tasks t x]: x is reached from t through declared task_dep (explicit *)
+(* or implicit through a target) / calc_dep edges; [reaches tasks y x]: y = x or dchain tasks y x.        *)
+(* ===================================================================================================== *)
+From DoitV Require Import FailChainP.
+
+(* specification level: if x ends badly (failure of any kind, or ignored), every task upstream of it can
+   only be reported `ignored' or `unmet dependency' -- whatever its own get_status verdict (CkUpToDate
+   included), --always-execute or not *)
+Theorem C05_chain_outcome :
+  forall tasks always t x, dchain tasks t x ->
+  forall rx, fin tasks always x rx -> is_goodst (fres_status rx) = false ->
+  forall rt, fin tasks always t rt -> rt = FIgnore \/ rt = FFail false kind_unmet.
+Proof. exact fin_chain_bad. Qed.
+Print Assumptions C05_chain_outcome.
+
+(* serial runner: in a run in which x got a bad final report, a task upstream of x through a chain is
+   never reported up-to-date or successful: its final report, if any, is `ignored' / `unmet dependency' *)
+Theorem C05_chain_report_serial :
+  forall tasks wake_rank calc_rank continue_ always fuel selection t x e et,
+    let tr := fst (run_serial tasks wake_rank calc_rank continue_ always fuel selection) in
+    dchain tasks t x -> In e tr -> is_final_ev x e = true -> is_good_ev e = false ->
+    In et tr -> is_final_ev t et = true -> et = ESkipIgnore t \/ et = EFailure t kind_unmet.
+Proof. exact serial_chain_report. Qed.
+Print Assumptions C05_chain_report_serial.
+
+(* ... and it is never executed; the first edge may be ANY effective dependency (setup-task, task
+   returned by a calc_dep task, ...), the tasks in between may have any get_status verdict *)
+Theorem C05_contained_chain_serial :
+  forall tasks wake_rank calc_rank continue_ always fuel selection t y x e,
+    let tr := fst (run_serial tasks wake_rank calc_rank continue_ always fuel selection) in
+    eff_dep tasks t y -> reaches tasks y x ->
+    In e tr -> is_final_ev x e = true -> is_good_ev e = false -> ~ In (EExecute t) tr.
+Proof. exact serial_chain_never_runs. Qed.
+Print Assumptions C05_contained_chain_serial.
+
+(* the same for the parallel runners, every number of workers, every schedule *)
+Theorem C05_chain_report_parallel :
+  forall tasks wake_rank calc_rank continue_ always proc fuel nprocs sched selection t x e et,
+    let log := fst (run_parallel tasks wake_rank calc_rank continue_ always proc fuel nprocs sched selection) in
+    dchain tasks t x -> In (PE e) log -> is_final_ev x e = true -> is_good_ev e = false ->
+    In (PE et) log -> is_final_ev t et = true -> et = ESkipIgnore t \/ et = EFailure t kind_unmet.
+Proof. exact parallel_chain_report. Qed.
+Print Assumptions C05_chain_report_parallel.
+
+Theorem C05_contained_chain_parallel :
+  forall tasks wake_rank calc_rank continue_ always proc fuel nprocs sched selection t w y x e,
+    let log := fst (run_parallel tasks wake_rank calc_rank continue_ always proc fuel nprocs sched selection) in
+    eff_dep tasks t y -> reaches tasks y x ->
+    In (PE e) log -> is_final_ev x e = true -> is_good_ev e = false -> ~ In (PStart t w) log.
+Proof. exact parallel_chain_never_runs. Qed.
+Print Assumptions C05_contained_chain_parallel.
+
+(* non-vacuity, the shape of the seeded regression: top (0) -> mid (1) -> gen (2), mid and the unrelated
+   task 3 up-to-date by their own inputs, gen fails; --continue.  mid is reported unmet (NOT up-to-date),
+   top is not executed, 3 is processed *)
+Definition ex05_chain (n : Base.name) : option Dispatch.task :=
+  match n with
+  | 0 => Some (Build_task [1] [] [] false false CkRun false OOk [] [] [])
+  | 1 => Some (Build_task [2] [] [] false false CkUpToDate false OOk [] [] [])
+  | 2 => Some (Build_task [] [] [] false false CkRun false OFail [] [] [])
+  | 3 => Some (Build_task [] [] [] false false CkUpToDate false OOk [] [] [])
+  | _ => None end.
+Example C05_chain_nonvacuous :
+  dchain ex05_chain 0 2 /\
+  fst (run_serial ex05_chain (fun _ _ => 0) (fun _ => 0) true false 100 [0; 3]) =
+    [EGetStatus 2; EExecute 2; ERemove 2; EFailure 2 0; EGetStatus 1; ERemove 1; EFailure 1 kind_unmet;
+     EGetStatus 0; ERemove 0; EFailure 0 kind_unmet; EGetStatus 3; ESkipUpToDate 3; EClose].
+Proof.
+  split; [|vm_compute; reflexivity].
+  apply dch_step with (y := 1); [left; simpl; auto|apply dch_one; left; simpl; auto].
+Qed.
